@@ -135,6 +135,10 @@ def jobs_for(prop, tier):
                     S("buffer", 1, live=2, mode="FIFO", delays=[0], drain=1, age_cap=0.5),
                     S("buffer", 2, live=1, mode="FIFO", delays=[0, 1], drain=1, age_cap=1),
                     S("buffer", 2, live=2, mode="FIFO", delays=[0], drain=1, age_cap=0.5, notime=1),
+                    S("rpfs", 2, live=2, prios=[0], drain=1, age_cap=0.5, notime=1),
+                    S("fleet", 2, live=2, delay=2, transit=1, drain=1, age_cap=3, grid=1, notime=1, cap_states=9000),
+                    S("sconv", 2, live=2, drain=1, age_cap=2, grid=1, acc=1, delay=1, notime=1, cap_states=9000),
+                    S("cconv", 2, live=2, drain=1, age_cap=2, grid=1, acc=1, notime=1, cap_states=9000),
                     S("buffer", 1, live=2, mode="LIFO", delays=[0], drain=1, age_cap=0.5),
                     S("buffer", 1, live=1, mode="FIFO", delays=[1], age_cap=2),
                     S("fleet", 1, live=1, delay=2, transit=1, drain=1, age_cap=3, grid=1),
@@ -145,7 +149,10 @@ def jobs_for(prop, tier):
             subs = store_subjects("quick") + fleet_subjects("quick")
         for sp in subs:
             sp.kw["actors"] = 2
-            jobs.append({"engine": "S", "prop": prop, "label": sp.label() + "#" + _h(sp), "spec": sp.to_json(), "caps": caps})
+            c2 = dict(caps)
+            if sp.get("cap_states"):
+                c2["max_states"] = sp.get("cap_states")   # deterministic state cap for the large two-token subjects
+            jobs.append({"engine": "S", "prop": prop, "label": sp.label() + "#" + _h(sp), "spec": sp.to_json(), "caps": c2})
     elif prop == "C11":
         for sp in store_subjects(tier) + fleet_subjects(tier):
             if sp.kind in ("buffer", "fleet"):
@@ -172,7 +179,7 @@ F_FAMILIES = {
     "C08": ["lines", "congestion", "diamonds", "combiners", "splitters", "conveyors"],
     "C09": ["lines", "congestion", "fans", "combiners", "splitters"],
     "C10": ["lines", "congestion", "diamonds", "fans", "combiners", "splitters", "conveyors", "draining"],
-    "C15": ["diamonds", "fans", "combiners", "splitters"],
+    "C15": ["diamonds", "fans", "combiners", "splitters", "invalid_indices"],
     "C16": ["combiners", "splitters"],
     "C17": ["lines", "congestion", "diamonds", "splitters", "combiners", "conveyors"],
     "C18": ["lines", "congestion", "diamonds", "combiners", "splitters", "conveyors"],
